@@ -376,6 +376,40 @@ func c11(p *model.Prog, r *report.Result) {
 			}
 		}
 	})
+	if !okNeed {
+		// or: one buffer of 11 + DataSize + 4 bytes whose part behind the header is read in full
+		model.EachInstr(rt, func(in ssa.Instruction) {
+			ms, ok := in.(*ssa.MakeSlice)
+			if !ok {
+				return
+			}
+			base, off := linear(ms.Len)
+			f := model.LoadedField(model.Unwrap(base))
+			if base == nil || off != 15 || f == nil || f.Name() != "DataSize" {
+				return
+			}
+			for _, ci := range model.AllCalls(rt) {
+				o := model.CalleeObj(ci.Common())
+				if o == nil || o.Pkg() == nil || o.Pkg().Path() != "io" || (o.Name() != "ReadFull" && o.Name() != "ReadAtLeast") {
+					continue
+				}
+				if sl, isSl := ci.Common().Args[1].(*ssa.Slice); isSl && sl.High == nil {
+					if k, isK := model.ConstInt(sl.Low); isK && k == 11 {
+						if ld, isLd := sl.X.(*ssa.UnOp); isLd {
+							// tag.Raw, stored from this make
+							for _, st := range model.FieldStores(rt, model.LoadedField(ld)) {
+								if st.Val == ssa.Value(ms) {
+									okNeed = true
+								}
+							}
+						} else if sl.X == ssa.Value(ms) {
+							okNeed = true
+						}
+					}
+				}
+			}
+		})
+	}
 	r.Check(okNeed, "C11.R3", fkey(rt, "layout", "needed"), p.Pos(rt.Pos()), "reader consumes DataSize+4 bytes after the header", "ReadTag no longer consumes body plus the 4-byte previous-tag-size")
 
 	// ---------------------------------------------------------------- R4
